@@ -72,7 +72,14 @@ def gen(tier, rng, scale):
         for si in range(erng.range(1, 4)):
             d = max(1, _depth(erng, True))
             base += 0x1000000
-            segs = [["g", d, base, erng.choice([8, 16, 24])]]
+            st = erng.choice([8, 16, 24])
+            segs = [["g", d, base, st]]
+            if erng.chance(1, 3) and d >= 2:
+                # direct recursion: a run of equal return addresses - at the root of the stack (what --fold-recursive-prefix would fold; without
+                # that option every one of them is a frame), in the middle, or at the leaf
+                k = min(d, erng.choice([2, 2, 5, 30, 40, 350, d]))
+                at = erng.choice([0, 0, 0, erng.below(d - k + 1), d - k])
+                segs = [sg for sg in [["g", at, base, st], ["g", k, base + at * st, 0], ["g", d - at - k, base + (at + 1) * st, st]] if sg[1] > 0]
             if erng.chance(1, 3) and d > 2:
                 segs, d = _with_zeros(erng, segs, d, keep_leaf=True)
             items.append({"extra": False, "segs": segs, "depth": d})
